@@ -28,6 +28,31 @@ Definition check := DmlCheck.check gen_cfg.
 COLS = ["a", "b", "s", "f"]
 TYPES = {"a": "int", "b": "int", "s": "str", "f": "bool"}
 DDL = "a BIGINT, b BIGINT, s VARCHAR, f BOOLEAN"
+# the "lexical" schema: string columns, a column spelled like a string literal that predicates use ('boss') and a
+# column whose name needs quoting -- for SQL-string predicates written with Spark's lexical rules
+SCHEMAS = {
+    "std": {"cols": COLS, "ddl": DDL},
+    "lex": {"cols": ["a", "name", "boss", "full name"], "ddl": 'a BIGINT, name VARCHAR, boss VARCHAR, "full name" VARCHAR'},
+}
+SCH = {"name": "std", **SCHEMAS["std"]}
+
+
+def use_schema(name):
+    SCH.update({"name": name, **SCHEMAS[name]})
+
+
+def qid(c) -> str:
+    return '"' + c.replace('"', '""') + '"'
+
+
+def col_list() -> str:
+    return ", ".join(qid(c) for c in SCH["cols"])
+
+
+def plain_ident(c) -> bool:
+    import re as _re
+    return bool(_re.fullmatch(r"[a-z_][a-z0-9_]*", c))
+
 
 TABLES = {
     "empty": [],
@@ -46,6 +71,7 @@ ERR = {"ValueError": "EValue", "IndexError": "EIndex", "ParserException": "EPars
 SIG_SQL = "C15/where-sql-string-not-parsed-as-predicate"
 SIG_UNQ = "C15/set-value-unqualified-column-raises-ValueError"
 SIG_ALIAS = "C15/set-value-automatic-alias-kept-ParserException"
+SIG_QKEY = "C15/set-column-name-needing-quotes-emitted-unquoted"
 
 
 # ---- expression descriptors ------------------------------------------------------------------------
@@ -199,11 +225,14 @@ SQLOP = {"Add": "+", "Sub": "-", "Mul": "*", "Eq": "=", "Neq": "<>", "Lt": "<", 
          "And": "and", "Or": "or", "NullSafeEq": "is not distinct from"}
 
 
-def e_sql(e, top=False) -> str:
+def e_sql(e, top=False, spark=False) -> str:
     """own SQL rendering (lower-case keywords): used for the SQL-string style and for the reference SELECT"""
     k = e[0]
+    R = lambda x: e_sql(x, spark=spark)
     if k == "col":
-        return e[1]
+        if spark:       # Spark: back-quoted identifiers
+            return e[1] if plain_ident(e[1]) else "`" + e[1].replace("`", "``") + "`"
+        return e[1] if plain_ident(e[1]) else qid(e[1])
     if k in ("lit", "raw"):
         v = e[1]
         if v is None:
@@ -212,19 +241,23 @@ def e_sql(e, top=False) -> str:
             return "true" if v else "false"
         if isinstance(v, int):
             return str(v) if v >= 0 else f"({v})"
+        if spark:       # Spark: double-quoted string literals, backslash escapes
+            if "'" in v:
+                return "'" + v.replace("\\", "\\\\").replace("'", "\\'") + "'"
+            return '"' + v.replace("\\", "\\\\").replace('"', '\\"') + '"'
         return "'" + v.replace("'", "''") + "'"
     if k == "bin":
-        s = f"{e_sql(e[2])} {SQLOP[e[1]]} {e_sql(e[3])}"
+        s = f"{R(e[2])} {SQLOP[e[1]]} {R(e[3])}"
     elif k == "not":
-        s = f"not {e_sql(e[1])}"
+        s = f"not {R(e[1])}"
     elif k == "neg":
-        s = f"- {e_sql(e[1])}"
+        s = f"- {R(e[1])}"
     elif k == "isnull":
-        s = f"{e_sql(e[1])} is null"
+        s = f"{R(e[1])} is null"
     elif k == "if":
-        return f"case when {e_sql(e[1])} then {e_sql(e[2])} else {e_sql(e[3])} end"
+        return f"case when {R(e[1])} then {R(e[2])} else {R(e[3])} end"
     elif k == "coalesce":
-        return f"coalesce({e_sql(e[1])}, {e_sql(e[2])})"
+        return f"coalesce({R(e[1])}, {R(e[2])})"
     else:
         raise ValueError(e)
     return s if top else f"({s})"
@@ -339,7 +372,9 @@ def call_features(call):
     w = call["where"]
     if w["kind"] == "sql":
         f.add("sql")
-    for _, _, v in call.get("set", []):
+    for _, c, v in call.get("set", []):
+        if not plain_ident(c):
+            f.add("qkey")
         if v[0] in ("if", "coalesce"):
             f.add("alias")
         if any(x[2] == "F" for x in e_refs(v)):
@@ -364,23 +399,23 @@ def ref_select(call) -> str:
     """independent statement of the property's meaning as a SELECT over the table's current contents"""
     p = where_spec_sql(call["where"])
     if call["kind"] == "delete":
-        return f"SELECT a, b, s, f FROM {{t}} WHERE ({p}) IS NOT TRUE ORDER BY rowid"
+        return f"SELECT {col_list()} FROM {{t}} WHERE ({p}) IS NOT TRUE ORDER BY rowid"
     last = {}
     for _, c, v in call["set"]:
         last[c] = v
     items = []
-    for c in COLS:
+    for c in SCH["cols"]:
         if c in last:
-            items.append(f"CASE WHEN ({p}) IS TRUE THEN {e_sql(last[c])} ELSE {c} END")
+            items.append(f"CASE WHEN ({p}) IS TRUE THEN {e_sql(last[c])} ELSE {qid(c)} END")
         else:
-            items.append(c)
+            items.append(qid(c))
     return f"SELECT {', '.join(items)} FROM {{t}} ORDER BY rowid"
 
 
 def call_show(call) -> str:
     w = call["where"]
     ws = {"none": lambda: "<omitted>", "bool": lambda: repr(w["v"]), "name": lambda: repr(w["col"]),
-          "sql": lambda: repr(e_sql(w["e"], top=True)),
+          "sql": lambda: repr(e_sql(w["e"], top=True, spark=w.get("lex") == "spark")),
           "cols": lambda: ("[" + ", ".join(e_show(e) for e in w["items"]) + "]") if w.get("as_list") else e_show(w["items"][0])}[w["kind"]]()
     if call["kind"] == "delete":
         return f"t.delete(where={ws})"
@@ -442,13 +477,13 @@ class Impl:
         for nm, rs in ((full, rows), ("main." + bare, shadow)):
             if rs is None or (nm != full and not self.mode):
                 continue
-            self.raw.execute(f"CREATE TABLE {nm} ({DDL})")
+            self.raw.execute(f"CREATE TABLE {nm} ({SCH['ddl']})")
             if rs:
                 self.raw.executemany(f"INSERT INTO {nm} VALUES (?, ?, ?, ?)", [list(r) for r in rs])
         return full, bare, ("main." + bare if self.mode and shadow is not None else None)
 
     def read(self, name):
-        return [tuple(r) for r in self.raw.execute(f"SELECT a, b, s, f FROM {name} ORDER BY rowid").fetchall()]
+        return [tuple(r) for r in self.raw.execute(f"SELECT {col_list()} FROM {name} ORDER BY rowid").fetchall()]
 
     def drop(self, name):
         self.raw.execute(f"DROP TABLE IF EXISTS {name}")
@@ -462,7 +497,7 @@ class Impl:
         if k == "name":
             return w["col"]
         if k == "sql":
-            return e_sql(w["e"], top=True)
+            return e_sql(w["e"], top=True, spark=w.get("lex") == "spark")
         cols = [build(e, t, self.F) for e in w["items"]]
         return cols if w.get("as_list") else cols[0]
 
@@ -479,7 +514,7 @@ class Impl:
         elif k == "name":
             wq = f"(WStr {strlit(w['col'])} (QCol None {strlit(w['col'])}))"
         elif k == "sql":
-            wq = f"(WStr {strlit(e_sql(w['e'], top=True))} {e_q(w['e'], branch)})"
+            wq = f"(WStr {strlit(e_sql(w['e'], top=True, spark=w.get('lex') == 'spark'))} {e_q(w['e'], branch)})"
         warg = self.where_arg(w, t)
         if k == "cols":
             cols = warg if isinstance(warg, list) else [warg]
@@ -695,7 +730,7 @@ def case_term(o) -> str:
     shq = "None"
     if x is not None and o.get("shadow_name") and x.get("shadow_pre") is not None:
         shq = f"(Some (({strlit('main')}, {strlit(o['bare'])}), {rows_coq(x['shadow_pre'])}, {rows_coq(x['shadow_post'])}))"
-    return (f"(mkCase {o['st']} {o['ref']} {shq} {listlit([strlit(c) for c in COLS])} {b['cq']} "
+    return (f"(mkCase {o['st']} {o['ref']} {shq} {listlit([strlit(c) for c in SCH['cols']])} {b['cq']} "
             f"{rows_coq(b['rows0'])} {rows_coq(b['rows1'])} {natlit(b['sent_build'])} {optlit(b['build_err'])} "
             f"{b['exported']} {rows_coq(pre)} {exq}, {refq})")
 
@@ -718,6 +753,8 @@ def signature(call, b, x, flags) -> str:
         return "C15/table-or-connection-touched-before-execute"
     if x and x.get("shadow_pre") is not None and x.get("shadow_pre") != x.get("shadow_post"):
         return "C15/another-table-of-the-same-name-was-modified"
+    if "qkey" in feats and xerr == "EParser":
+        return SIG_QKEY
     if "unq" in feats and berr == "EValue":
         return SIG_UNQ
     if "alias" in feats and xerr == "EParser":
@@ -730,7 +767,7 @@ def signature(call, b, x, flags) -> str:
 
 # ---- generation of histories ---------------------------------------------------------------------------------
 
-def findings_corpus():
+def findings_corpus(schema="std"):
     """the replay files of every listed finding (known or fixed) are corpus cases that run first"""
     import glob
     import os
@@ -739,7 +776,7 @@ def findings_corpus():
         with open(path) as f:
             rp = json.load(f)
         r = rp.get("replay") or {}
-        if "call_json" in r:
+        if "call_json" in r and r.get("schema", "std") == schema:
             out.append(([tuple(x) for x in r.get("rows_before_execute") or []], call_from_json(r["call_json"]), os.path.basename(path)))
     return out
 
@@ -818,7 +855,7 @@ def make_histories(ctx):
         for w in wheres:
             for s in sets:
                 call = {"kind": "delete", "where": w} if s is None else {"kind": "update", "set": s, "where": w}
-                for tn in (("t1", "t2") if ctx.tier == "quick" else tuple(TABLES)):
+                for tn in (("t1", "t2") if ctx.tier == "quick" else ("empty", "one", "nulls", "t1", "t2", "dups")):
                     hs.append((tn, [call], [0]))
                     n_exh += 1
     # random histories of up to 4 statements
@@ -938,6 +975,62 @@ def make_q_histories(seed, tier, mode):
     return hs
 
 
+LEX_TABLES = {
+    "lex1": [(1, "bob", "ann", "b c"), (2, "boss", "bob", "x y"), (3, "it's", "boss", None), (None, None, None, "b c"),
+             (2, "boss", "boss", "b c"), (4, 'say "hi"', "ann", "back\\slash")],
+    "lex2": [(1, "ann", "bob", None), (1, "ann", "bob", None), (5, "bob", "bob", "boss")],
+}
+
+
+def make_lex_histories(seed, tier):
+    """SQL-string predicates written with Spark's lexical rules (the session's input dialect): double-quoted string
+    literals -- some spelled like a column ('boss') --, back-quoted identifiers incl. a name with a blank, backslash
+    escapes; plus the same predicates written with Columns.  Deterministic; a few random combinations."""
+    r = random.Random(seed + 15)
+    Fc = lambda c: ("col", c, "F")
+    T = lambda c: ("col", c, "T")
+    L = lambda v: ("lit", v)
+    sql = lambda e: {"kind": "sql", "e": e, "lex": "spark"}
+    atoms = [
+        ("bin", "Eq", Fc("name"), L("bob")), ("bin", "Eq", Fc("name"), L("boss")), ("bin", "Neq", Fc("boss"), L("boss")),
+        ("bin", "Eq", Fc("full name"), L("b c")), ("isnull", Fc("full name")), ("bin", "Eq", Fc("name"), L("it's")),
+        ("bin", "Eq", Fc("name"), L('say "hi"')), ("bin", "Eq", Fc("full name"), L("back\\slash")),
+        ("bin", "Eq", Fc("name"), Fc("boss")), ("bin", "Ge", Fc("full name"), L("boss")),
+    ]
+    preds = list(atoms) + [
+        ("bin", "And", atoms[3], atoms[2]), ("bin", "Or", atoms[1], atoms[4]), ("not", atoms[0]),
+        ("bin", "And", ("bin", "Gt", Fc("a"), L(1)), atoms[1]),
+    ]
+    n_extra = 6 if tier == "quick" else 60
+    for _ in range(n_extra):
+        a, b = r.sample(atoms, 2)
+        preds.append(("bin", r.choice(["And", "Or"]), a, ("not", b) if r.random() < 0.3 else b))
+    sets = [None, [["str", "name", L("zed")]], [["T", "boss", T("name")], ["str", "a", ("raw", 0)]]]
+    hs = []
+    for rows, call, fname in findings_corpus("lex"):
+        TABLES.setdefault("finding:" + fname, rows)
+        hs.append(("finding:" + fname, [call], [0]))
+    for i, e in enumerate(preds):
+        for j, st in enumerate(sets):
+            if j == 2 and i % 3:
+                continue
+            w = sql(e) if e[0] in ("bin", "not", "isnull") else None
+            call = {"kind": "delete", "where": w} if st is None else {"kind": "update", "set": st, "where": w}
+            hs.append(("lex1", [call], [0]))
+            if i < len(atoms) and j == 0:
+                hs.append(("lex2", [call], [0]))
+                # the same predicate written with Columns
+                hs.append(("lex1", [dict(call, where={"kind": "cols", "items": [restyle(e, r.choice("TF"))], "as_list": False})], [0]))
+    for ks in ("str", "T", "F"):       # the assigned column's name needs quoting
+        hs.append(("lex1", [{"kind": "update", "set": [[ks, "full name", L("q r")], ["str", "a", ("bin", "Add", T("a"), L(1))]],
+                             "where": sql(atoms[0])}], [0]))
+        hs.append(("lex2", [{"kind": "update", "set": [[ks, "full name", T("name")]], "where": {"kind": "none"}}], [0]))
+    hs.append(("lex1", [{"kind": "update", "set": [["str", "name", L("boss")]], "where": sql(atoms[0])},
+                        {"kind": "delete", "where": sql(atoms[1])}], [0, 1]))
+    hs.append(("lex1", [{"kind": "delete", "where": sql(atoms[3])}, {"kind": "delete", "where": sql(atoms[4])}], [1, 0]))
+    return hs
+
+
 def observe(impl, hs):
     """run histories; returns ([(coq case term, meta)], [harness errors], number of histories)"""
     pairs, errors, seen, n_hist = [], [], set(), 0
@@ -956,7 +1049,7 @@ def observe(impl, hs):
             continue
         for o in obs:
             pairs.append((case_term(o), {"o": o, "table": tn, "calls": calls, "order": order, "shadow": shadow,
-                                         "mode": impl.mode, "first": o is obs[0]}))
+                                         "mode": impl.mode, "first": o is obs[0], "schema": SCH["name"]}))
     return pairs, errors, n_hist
 
 
@@ -971,6 +1064,7 @@ def _q_phase(args):
 PINNED = """(* facts of the pinned source, used only so that the search can still run when the translator failed *)
 From SF Require Import Base.Val Base.Expr C15.Dml.
 Definition gen_cfg : cfg := mkCfg true And true true true true false true TScan TScan true true true true 0 1.
+Definition set_key_is_identifier : bool := true.
 """
 
 
@@ -1014,6 +1108,13 @@ def run(ctx: core.Ctx):
     # only entries with status "known" are reported as KNOWN-FINDING; "fixed" ones suppress nothing
     listed_known = {k["signature"] for k in ctx.known if k.get("status", "known") == "known"}
     pairs, errors, n_hist = observe(impl, hs)
+    TABLES.update(LEX_TABLES)
+    use_schema("lex")
+    try:
+        lp, le_, ln = observe(impl, make_lex_histories(ctx.seed, ctx.tier))
+    finally:
+        use_schema("std")
+    pairs, errors, n_hist, n_lex = pairs + lp, errors + le_, n_hist + ln, len(lp)
     n_q = 0
     for fut in q_futs:
         try:
@@ -1043,7 +1144,7 @@ def run(ctx: core.Ctx):
             if c["kind"] == "update":
                 bump("set_size", len(c["set"]))
     ctx.log(f"{len(items)} observed (build, execute) pairs from {n_hist} histories ({n_exh} bounded-exhaustive single calls; "
-            f"{n_q} pairs on schema-/catalog-qualified tables)")
+            f"{n_q} pairs on schema-/catalog-qualified tables; {n_lex} pairs with Spark-lexical SQL strings / quoted column names)")
     res = ctx.cases("c15", HEADER2, items, per_file=150, result_ty="str", fn="check2")
     n_dom = n_wf = n_t2 = n_t2x = n_nontriv = n_dev = 0
     model_fail, t2_fail, ref_fail, thm_fail = [], [], [], []
@@ -1061,7 +1162,7 @@ def run(ctx: core.Ctx):
         n_t2 += t2 == "1"
         n_t2x += t2 == "x"
         desc = {"call": call_show(call), "call_json": jsonable_call(call), "table": m["table"],
-                "table_opened_as": o["name"], "naming_mode": o.get("mode"),
+                "table_opened_as": o["name"], "naming_mode": o.get("mode"), "schema": m.get("schema", "std"),
                 "same_named_table_in_default_schema": o.get("shadow_name"),
                 "shadow_rows_before_execute": (x or {}).get("shadow_pre"), "shadow_rows_after_execute": (x or {}).get("shadow_post"),
                 "rows_before_build": b["rows0"], "rows_before_execute": (x or {}).get("pre"),
@@ -1085,7 +1186,8 @@ def run(ctx: core.Ctx):
             sig = signature(call, b, x, rr)
             what = {SIG_SQL: "a SQL-string predicate is not parsed but taken for a column name",
                     SIG_UNQ: "an assigned value written with col('c') raises ValueError at build time",
-                    SIG_ALIAS: "an assigned value built by a function keeps its automatic alias -> syntax error"}.get(
+                    SIG_ALIAS: "an assigned value built by a function keeps its automatic alias -> syntax error",
+                    SIG_QKEY: "an assigned column whose name needs quoting is emitted unquoted -> syntax error"}.get(
                 sig, "update/delete does not do what the property says")
             desc["coq_case"] = it
             if sig not in listed_known:
@@ -1113,6 +1215,7 @@ def run(ctx: core.Ctx):
             ctx.deviation(sig, what, desc)
             continue
         try:
+            use_schema(m.get("schema", "std"))
             call = o["b"]["call"]
             pre = (o["x"] or {}).get("pre") or o["b"]["rows0"]
             rows_s, call_s = shrink(impl, pre, call)
@@ -1126,6 +1229,8 @@ def run(ctx: core.Ctx):
                                           "execute_observed": ox["obs"], "expected_rows": ox["ref"], "verdict": v})
         except Exception as ex:
             desc = dict(desc, shrink_error=f"{type(ex).__name__}: {ex}")
+        finally:
+            use_schema("std")
         ctx.deviation(sig, what, desc)
     if model_fail:
         ctx.broken("T3:impl-vs-model", f"{len(model_fail)} observations where the implementation does what the property says "
@@ -1180,6 +1285,7 @@ def replay(ctx: core.Ctx, rp: dict) -> int:
     call = call_from_json(r["call_json"])
     rows = [tuple(x) for x in (r.get("rows_before_execute") or r.get("rows_before_build") or r.get("rows") or [])]
     impl = Impl(r.get("naming_mode"))
+    use_schema(r.get("schema", "std"))
     shadow = r.get("shadow_rows_before_execute")
     shadow = None if shadow is None else [tuple(x) for x in shadow]
     o = run_history(impl, rows, [call], [0], shadow)[0]
